@@ -20,7 +20,7 @@ TECHNIQUE = "Coq proof (per-layer algebraic identities, lra/nra) + bit-exact ker
 
 ORACLE_KEYS = ("uptake-credit", "uptake-credited-in-later-substep", "mineral-bookkeeping", "organic-pool-negative",
                "dissolved-exceeds-applied", "c1-negative", "state-not-finite", "fixation-credit",
-               "tillage-mixing-not-conservative", "tillage-run-error", "booked-in-later-substep", "applied-fertiliser-decreases", "harvest-run-error", "harvest-pool-not-finite-or-negative",
+               "tillage-mixing-not-conservative", "tillage-run-error", "booked-in-later-substep", "applied-fertiliser-decreases", "prognosis-dressing-removes-n", "harvest-run-error", "harvest-pool-not-finite-or-negative",
                "harvest-removes-organic-n", "harvest-residues-exceed-crop-n", "harvest-first-entry-books-residues", "crop-n-credit", "mineral-n-below-profile")
 
 
